@@ -296,6 +296,62 @@ theorem findTables_eq_findAssoc {T : Tables} {es : List CEntry} (D : Derived T e
     rw [D.hu] at this
     cases this
 
+/-- the bare `und` entry is filed in LANG_ONLY under the integer of "und" -/
+theorem findTables_und {T : Tables} {es : List CEntry} (D : Derived T es) (hnu : ∀ e ∈ es, e.kl ≠ undInt) :
+    findTables T (undInt, 0, 0) = findAssoc es (0, 0, 0) := by
+  rw [findTables_L T (by decide), D.h1]
+  apply table1_eq_findAssoc D.hd
+  intro e he
+  simp only [ckey, Prod.mk.injEq, Bool.and_eq_true, beq_iff_eq]
+  constructor
+  · rintro ⟨⟨b, c⟩, a⟩
+    refine ⟨?_, b, c⟩
+    by_cases h0 : e.kl = 0
+    · exact h0
+    · simp only [h0, if_false] at a; exact absurd a (hnu e he)
+  · rintro ⟨a, b, c⟩
+    exact ⟨⟨b, c⟩, by simp only [a, if_true]⟩
+
+/-! ### one row per entry: the seven shapes partition the entries -/
+
+theorem length_insertBy {α} (lt : α → α → Bool) (a : α) (l : List α) : (insertBy lt a l).length = l.length + 1 := by
+  induction l with
+  | nil => rfl
+  | cons y ys ih =>
+    unfold insertBy
+    split
+    · rfl
+    · simp only [List.length_cons, ih]
+
+theorem length_sortBy {α} (lt : α → α → Bool) (l : List α) : (sortBy lt l).length = l.length := by
+  induction l with
+  | nil => rfl
+  | cons y ys ih =>
+    show (insertBy lt y (sortBy lt ys)).length = _
+    rw [length_insertBy, ih]; rfl
+
+theorem length_shapes (es : List CEntry) :
+    (deriveLangOnly es).length + (deriveLangRegion es).length + (deriveLangScript es).length +
+      (deriveScriptRegion es).length + (deriveScriptOnly es).length + (deriveRegionOnly es).length +
+      (unplaced es).length = es.length := by
+  simp only [deriveLangOnly, deriveLangRegion, deriveLangScript, deriveScriptRegion, deriveScriptOnly,
+    deriveRegionOnly, unplaced, length_sortBy, List.length_map]
+  induction es with
+  | nil => rfl
+  | cons e r ih =>
+    simp only [List.filter_cons]
+    by_cases a : e.kl = 0 <;> by_cases b : e.ks = 0 <;> by_cases c : e.kr = 0 <;>
+      simp [a, b, c] <;> omega
+
+/-- as many rows in the six tables together as entries in the list -/
+theorem length_tables {T : Tables} {es : List CEntry} (D : Derived T es) :
+    T.langOnly.toList.length + T.langRegion.toList.length + T.langScript.toList.length +
+      T.scriptRegion.toList.length + T.scriptOnly.toList.length + T.regionOnly.toList.length = es.length := by
+  have := length_shapes es
+  rw [D.hu] at this
+  rw [D.h1, D.h2, D.h3, D.h4, D.h5, D.h6]
+  simpa using this
+
 /-! ### keys sorted ⇒ keys distinct (how the data fact is decided) -/
 
 def keyLt (a b : CEntry) : Bool :=
